@@ -257,11 +257,13 @@ func soupOracle(c *kit.Case) error {
 
 // ---- generator
 
-var cellTexts = []string{"a", "b", "foo", "x y", "*em*", "**s**", "`c`", "`a\\|b`", "a\\|b", "\\|", "1", "", "", " ", "é", "[l](u)", "<b>", "&amp;", "~~d~~", "a*b", "`"}
+var cellTexts = []string{"a", "b", "foo", "x y", "*em*", "**s**", "`c`", "`a\\|b`", "a\\|b", "\\|", "1", "", "", " ", "é", "[l](u)", "<b>", "&amp;", "~~d~~", "a*b", "`", "`<b>\\|`", "`x\\|\"y`", "`&\\|<`"}
 
 func drawCell(t *rapid.T) string {
 	return rapid.SampledFrom(cellTexts).Draw(t, "cell")
 }
+
+var rowIndentOK = true
 
 func writeRow(t *rapid.T, cells []string, forcePipes bool) string {
 	lead := forcePipes || rapid.Bool().Draw(t, "lead")
@@ -278,6 +280,10 @@ func writeRow(t *rapid.T, cells []string, forcePipes bool) string {
 	}
 	// a cell ending in a backslash followed by the separator would escape the pipe
 	var sb strings.Builder
+	if rowIndentOK {
+		sb.WriteString(rapid.SampledFrom([]string{"", "", "", " ", "  ", "   "}).Draw(t, "rowindent"))
+	}
+	rowIndentOK = true
 	if lead {
 		sb.WriteString("|")
 	}
@@ -337,10 +343,15 @@ func TestTableModel(t *testing.T) {
 			aligns = append(aligns, rapid.SampledFrom([]string{"l", "r", "c", "n"}).Draw(t, "align"))
 		}
 		var lines []string
+		container := rapid.IntRange(0, 5).Draw(t, "container")
+		// inside a list item the first line fixes the content column: extra indentation
+		// there would turn the following rows into lazy continuation lines
+		rowIndentOK = container != 1
 		if rapid.IntRange(0, 3).Draw(t, "para") == 0 {
 			np := rapid.IntRange(1, 2).Draw(t, "np")
 			for i := 0; i < np; i++ {
-				lines = append(lines, rapid.SampledFrom([]string{"intro text", "more words here", "x | y", "plain"}).Draw(t, "ptext"))
+				lines = append(lines, rapid.SampledFrom([]string{"intro text", "more words here", "x | y", "plain", "[r]: /u", "[r2]: /v 't'", "[r3]:\n  /w"}).Draw(t, "ptext"))
+				rowIndentOK = true
 			}
 		}
 		hasPara := len(lines) > 0
@@ -378,7 +389,8 @@ func TestTableModel(t *testing.T) {
 			rowCells = append(rowCells, strconv.Itoa(k))
 		}
 		body := strings.Join(lines, "\n") + "\n"
-		switch rapid.IntRange(0, 5).Draw(t, "container") {
+		rowIndentOK = true
+		switch container {
 		case 0:
 			body = "> " + strings.ReplaceAll(strings.TrimSuffix(body, "\n"), "\n", "\n> ") + "\n"
 		case 1:
